@@ -126,7 +126,7 @@ func runCheck(o *checkOpts) int {
 	var todo []*Contract
 	pkgSet := map[string]bool{}
 	for _, c := range specs.Order {
-		if c.Trusted {
+		if c.Trusted || c.Inline {
 			continue
 		}
 		if len(o.props) > 0 && !intersects(contractProps(c), o.props) {
@@ -219,6 +219,17 @@ func runCheck(o *checkOpts) int {
 		u := &Unit{c: c, name: shortUnit(c)}
 		if fn == nil {
 			u.err = "binding: no function " + c.Key() + " in the current tree"
+			if o.verbose {
+				base := fnKeyName
+				if i := strings.Index(base, "$"); i >= 0 {
+					base = base[:i]
+				}
+				for k := range e.fnByKey {
+					if strings.HasPrefix(k, base) {
+						fmt.Println("  candidate:", k)
+					}
+				}
+			}
 		} else if fn.Blocks == nil {
 			u.err = "binding: function " + c.Key() + " has no body"
 		} else {
@@ -227,6 +238,26 @@ func runCheck(o *checkOpts) int {
 			e.verifyUnit(u)
 		}
 		units = append(units, u)
+	}
+	// inline contract blocks (loop invariants of closures) must still bind to a function
+	for _, c := range specs.Order {
+		if !c.Inline || (len(o.props) > 0 && !intersects(contractProps(c), o.props) && len(contractProps(c)) > 0) {
+			continue
+		}
+		if e.fnByKey[c.Key()] == nil && strings.HasPrefix(c.Pkg, modulePath) && e.spkgs[c.Pkg] != nil {
+			u := &Unit{c: c, name: shortUnit(c), err: "binding: no function " + c.Key() + " in the current tree (inline contract)"}
+			if len(c.Props) == 0 {
+				// attribute to the enclosing function's properties
+				base := c.Key()
+				if i := strings.Index(base, "$"); i >= 0 {
+					base = base[:i]
+				}
+				if pc, ok := specs.Contracts[base]; ok {
+					u.c = &Contract{Pkg: c.Pkg, Func: c.Func, Props: contractProps(pc), Options: map[string]string{}}
+				}
+			}
+			units = append(units, u)
+		}
 	}
 	// lemmas of used modules
 	lemmaUnits := e.lemmaObligations(o, todo)
